@@ -1263,7 +1263,14 @@ func modI(x, y Integer) (Integer, error) {
 	if y == 0 {
 		return 0, exceptionalValueZeroDivisor
 	}
-	return x - (Integer(math.Floor(float64(x)/float64(y))) * y), nil
+	if y == -1 { // Avoid minInt % -1.
+		return 0, nil
+	}
+	r := x % y
+	if r != 0 && (r < 0) != (y < 0) {
+		r += y
+	}
+	return r, nil
 }
 
 func negI(x Integer) (Integer, error) {
@@ -1307,7 +1314,11 @@ func intFloorDivI(x, y Integer) (Integer, error) {
 	case y == 0:
 		return 0, exceptionalValueZeroDivisor
 	default:
-		return Integer(math.Floor(float64(x) / float64(y))), nil
+		q := x / y
+		if x%y != 0 && (x < 0) != (y < 0) {
+			q--
+		}
+		return q, nil
 	}
 }
 
